@@ -486,13 +486,24 @@ def gen_keys(rng, n):
     return sorted(keys)
 
 
-def gen_state(rng, db, naccounts):
-    """-> (state root node, accounts: key(int) -> account node, path: key -> [dict nodes on the path + accounts cell])"""
+def gen_state(rng, db, naccounts, extra_mode='full'):
+    """-> (state root node, accounts: key(int) -> account node, path: key -> [dict nodes on the path + accounts cell])
+    extra_mode != 'full': the accounts cell's top-level `extra:DepthBalanceInfo` (read by the parser since fix f2933e1) is absent or cut."""
     keys = gen_keys(rng, naccounts)
     accs = {k: gen_account_cell(rng, db) for k in keys}
     path = {k: [] for k in keys}
     droot = build_aug(rng, db, [(ubits(k, 256), accs[k], k) for k in keys], 256, path)
     eb, er = extra_bits(rng, db)       # ahme_root$1 root:^(HashmapAug ...) extra:DepthBalanceInfo
+    if extra_mode == 'none':           # nothing after the dictionary root
+        eb, er = '', []
+    elif extra_mode == 'short':        # fewer than the 9 bits of split_depth + Grams length
+        eb, er = eb[:rng.randrange(1, 9)], []
+    elif extra_mode == 'grams-cut':    # Grams length says 3 bytes, fewer are there
+        eb, er = ubits(rng.randrange(31), 5) + ubits(3, 4) + G.rand_bits(rng, 8 * rng.randrange(0, 3)), []
+    elif extra_mode == 'no-maybe':     # the ExtraCurrencyCollection Maybe bit is missing
+        eb, er = eb[:-1], []
+    elif extra_mode == 'no-ref':       # the Maybe bit announces a dictionary reference that is not there
+        eb, er = eb[:-1] + '1', []
     acell = db.add(G.ORD, '1' + eb, [droot] + er)
     for k in keys:
         path[k].append(acell)
@@ -716,12 +727,45 @@ def account_stream(ctx, rng):
                 run_account_case(ctx, dagx, [r0, r1], blk_hash, k2, o + a2, 'rej', 'account:other-state', 'state not committed by the header accepted')
 
 
+def extra_stream(ctx, rng):
+    """accounts cell WITHOUT (or with a cut) HashmapAugE extra: since fix f2933e1 the parser reads `extra:DepthBalanceInfo` after the dictionary
+    root, so these states cannot be parsed and the account check must raise (Model/Proof.lean `readsDepthBalance` = false). Unpruned proofs over an
+    otherwise valid state; 'none' carries the by-construction expectation, the cut variants are gray (model = library only), 'full' is the control."""
+    modes = (('none', 'rej', 'account:no-extra'), ('short', None, 'gray:extra-short'), ('grams-cut', None, 'gray:extra-grams-cut'),
+             ('no-maybe', None, 'gray:extra-no-maybe'), ('no-ref', None, 'gray:extra-no-ref'), ('full', 'acc', 'complete:account'))
+    for _ in range(ctx.n(2, 12)):
+        for mode, expect, fkey in modes:
+            db = G.DagBuilder()
+            sroot, accs, _ = gen_state(rng, db, rng.choice([1, 2, 3]), extra_mode=mode)
+            if not db.ok(sroot):
+                ctx.corr_broken(f'harness: generated shard state ({mode}) not spec-valid')
+                continue
+            sinfo = db.infos[sroot]
+            hdb = G.DagBuilder()
+            hroot, _, _ = gen_header(rng, hdb, sinfo)
+            if not hdb.ok(hroot) or hdb.infos[hroot].mask != 0:
+                continue
+            blk_hash = hdb.infos[hroot].H[0]
+            key = rng.choice(sorted(accs))
+            dag = []
+            o = append_dag(dag, hdb.nodes[:hroot + 1])
+            dag.append((G.MPROOF, G.mproof_bits(hdb.infos[hroot]), (o + hroot,)))
+            r0 = len(dag) - 1
+            o = append_dag(dag, db.nodes[:sroot + 1])
+            dag.append((G.MPROOF, G.mproof_bits(sinfo), (o + sroot,)))
+            r1 = len(dag) - 1
+            ctx.count(f'extra-mode:{mode}')
+            run_account_case(ctx, dag, [r0, r1], blk_hash, key, o + accs[key], expect, fkey,
+                             f'account proof over a state whose accounts cell has extra mode {mode!r}: wrong verdict')
+
+
 # ----------------------------------------------------------------------------- run / replay
 
 def run(ctx):
     rng = ctx.rng
     generic_streams(ctx, rng)
     account_stream(ctx, rng)
+    extra_stream(ctx, rng)
 
 
 def replay(ctx, payload):
